@@ -444,8 +444,8 @@ theorem inv_freeze {s : St} {a : Abs} (h : Inv s a) :
 
 
 /-- a content-preserving rebinding (`self._mask_ = self._mask_.copy()`): only the aliasing of a cached wod changes -/
-theorem inv_write_same (at_ : Attr) {s : St} {a : Abs} (h : Inv s a) :
-    Inv ⟨s.core, s.cache.onWriteSame s.core at_⟩ (absEvent (.write at_ .same) a) := by
+theorem inv_write_same (post : Facts) (at_ : Attr) {s : St} {a : Abs} (h : Inv s a) :
+    Inv ⟨s.core.sameRep at_ post, s.cache.onWriteSame s.core at_⟩ (absEvent (.write at_ .same) a) := by
   obtain ⟨h1, h2, h3, h4, h5, h6⟩ := h
   cases at_ with
   | mask =>
@@ -502,7 +502,7 @@ theorem inv_event (post : Facts) (e : Event) (fills : List Query) {s : St} {a : 
   cases e with
   | write at_ md =>
     cases md with
-    | same => exact inv_write_same at_ h
+    | same => exact inv_write_same post at_ h
     | rebind => exact inv_write post at_ .rebind (by decide) h
     | aug => exact inv_write post at_ .aug (by decide) h
     | store => exact inv_write post at_ .store (by decide) h
@@ -584,7 +584,7 @@ theorem good_query (en : Bool) (q : Query) {s : St} (h : Good s) : Good (query e
 
 def coreEvent (post : Facts) (e : Event) (c : Core) : Core :=
   match e with
-  | .write _ .same => c
+  | .write a .same => c.sameRep a post
   | .write a md => c.write a md post
   | .assumeVarr b => { c with varr := b }
   | _ => c
